@@ -14,8 +14,8 @@
  *          a composition of one member is the taskpool itself (parsec_compose(NULL, tp))
  * late:    0 = parsec_context_add_taskpool(compound); parsec_context_start(); parsec_context_wait()
  *          1 = parsec_context_start(); parsec_context_add_taskpool(compound); parsec_context_wait()
- *          2 = like 1, but a one-task taskpool is enqueued before the start and has completed before the compound is
- *              enqueued: the workers are certainly inside their scheduling loop
+ *          2 = like 1, but a one-task taskpool is enqueued before the start and cannot complete before the start has
+ *              returned: the workers are certainly inside their scheduling loop when the compound is enqueued
  * delay:   bit i set = the thread that enables member i (the compound startup for member 0, the completion callback of
  *          member i-1 otherwise) is held back right after the tasks of member i were handed to the scheduler, until
  *          the termination of member i was detected on another thread or wait_us elapsed (only when the context is running):
@@ -125,11 +125,6 @@ static int on_complete(parsec_taskpool_t *tp, void *data)
     (void)tp; (void)data;
     vt_ev("\"e\":\"TpDone\",\"r\":%d,\"n\":%d", cur.id, n);
     return PARSEC_SUCCESS;
-}
-
-static int terminated(parsec_taskpool_t *tp)
-{
-    return NULL != tp->tdm.module && PARSEC_TERM_TP_TERMINATED == tp->tdm.module->taskpool_state(tp);
 }
 
 /* the local detector of the member has seen the termination: its completion callback is running or has run
@@ -299,8 +294,7 @@ static void one_run(parsec_context_t *parsec)
         rc = parsec_context_add_taskpool(parsec, pre->tp);
         if( PARSEC_SUCCESS != rc ) exit(3);
         parsec_context_start(parsec);
-        start_returned = 1;
-        while( !terminated(pre->tp) ) usleep(20);
+        start_returned = 1;         /* (no waiting for it here: with some schedulers only this thread can reach its task) */
         progress++;
     } else if( 1 == cur.late ) {
         parsec_context_start(parsec);
@@ -349,6 +343,10 @@ int main(int argc, char **argv)
     parsec_matrix_block_cyclic_init(&dcE, PARSEC_MATRIX_INTEGER, PARSEC_MATRIX_TILE, 1,
                                     TILE, 1, TILE, 1, 0, 0, TILE, 1, 2, 1, 1, 1, 0, 0);
     if( 0 != dcE.super.nb_local_tiles ) { fprintf(stderr, "setup: the empty matrix has local tiles\n"); return 3; }
+    /* one empty epoch first: the first parsec_context_wait() configures the communication engine, which can take
+     * seconds on a loaded machine and is not part of any composition */
+    parsec_context_start(parsec);
+    parsec_context_wait(parsec);
     pthread_create(&wd, NULL, watchdog, NULL);
 
     while( NULL != fgets(line, sizeof(line), rf) ) {
